@@ -45,12 +45,7 @@ RESERVED_SAMPLES = ["_pt_temp", "_pt_temp_0", "_pt_data", "_pt_data_0", "_pt_out
                     "_0", "_1", "_r0", "_in0", "_in1", "_pt_sum_r0", "_pt_subst"]
 
 
-class _Timeout(Exception):
-    pass
-
-
-def _alarm(signum: int, frame: Any) -> None:
-    raise _Timeout()
+_Timeout = common.Timeout
 
 
 def plan(tier: str, seed: int) -> list[dict[str, Any]]:
@@ -524,12 +519,11 @@ def check_case(case: dict[str, Any], col: common.Collector) -> None:
 
 
 def run_shard(shard: dict[str, Any], col: common.Collector) -> None:
-    old = signal.signal(signal.SIGALRM, _alarm)
     for case in shard["cases"]:
-        signal.alarm(90)
         try:
-            check_case(case, col)
-        except _Timeout:
+            with common.time_limit(90):
+                check_case(case, col)
+        except common.Timeout:
             col.count("program_timeouts")
         except Exception as e:  # noqa: BLE001
             import traceback
@@ -538,8 +532,7 @@ def run_shard(shard: dict[str, Any], col: common.Collector) -> None:
                           f"unexpected {type(e).__name__}: {str(e)[:200]}",
                           {"case": case, "tb": traceback.format_exc()[-2000:]})
         finally:
-            signal.alarm(0)
-    signal.signal(signal.SIGALRM, old)
+            pass
 
 
 def replay(witness: dict[str, Any], col: common.Collector) -> None:
